@@ -468,6 +468,56 @@ func mutate(w []byte) []byte {
 	return m
 }
 
+// messages larger than 16 KiB whose late names (first written beyond offset 0x3fff) are used again
+func bigWire() []byte {
+	e := &enc{offs: map[string]int{}}
+	pad := 66 + rng.Intn(40)
+	late := 2 + rng.Intn(4)
+	e.u16(rng.Intn(65536))
+	e.u16(0x8180)
+	e.u16(1)
+	e.u16(pad + late*3)
+	e.u16(0)
+	e.u16(0)
+	e.name([]string{"big", "test"}, false)
+	e.u16(255)
+	e.u16(1)
+	for i := 0; i < pad; i++ {
+		e.name([]string{"big", "test"}, true)
+		e.u16(65280 + i%3)
+		e.u16(1)
+		e.u32(300)
+		l := 230 + rng.Intn(40)
+		e.u16(l)
+		for j := 0; j < l; j++ {
+			e.b = append(e.b, byte(i))
+		}
+	}
+	for k := 0; k < late; k++ {
+		nm := []string{fmt.Sprintf("late%d", k), randLabel(), "zone"}
+		for r := 0; r < 3; r++ {
+			e.name(nm, false) // uncompressed in the input: the real encoder decides itself
+			if r == 1 {
+				e.u16(5)
+				e.u16(1)
+				e.u32(60)
+				at := len(e.b)
+				e.u16(0)
+				st := len(e.b)
+				e.name(nm, false)
+				binary.BigEndian.PutUint16(e.b[at:], uint16(len(e.b)-st))
+			} else {
+				e.u16(1)
+				e.u16(1)
+				e.u32(60)
+				e.u16(4)
+				e.b = append(e.b, 10, 1, byte(k), byte(r))
+			}
+		}
+	}
+	return e.b
+}
+
 // long names: 253..257 octets
 func longNameWire() []byte {
 	e := &enc{offs: map[string]int{}}
@@ -503,6 +553,7 @@ func main() {
 	names := flag.String("names", "", "TLC-enumerated name-decoder inputs (json array of byte arrays)")
 	gen := flag.Int("gen", 0, "random valid wire images (decode, then re-encode both ways)")
 	mal := flag.Int("mal", 0, "mutated wire images (decode only)")
+	big := flag.Int("big", 0, "messages larger than 16 KiB with late names reused")
 	lim := flag.Int("lim", 0, "size-limited packs")
 	flag.Parse()
 	rng = rand.New(rand.NewSource(vtrace.Seed()))
@@ -549,6 +600,17 @@ func main() {
 		}
 		doPack(m, false, 0)
 		doPack(m, true, 0)
+		dnsmsg.ReleaseMsg(m)
+	}
+	for i := 0; i < *big; i++ {
+		m := doUnpack(bigWire())
+		if m == nil {
+			continue
+		}
+		doPack(m, true, 0)
+		if i%4 == 0 {
+			doPack(m, false, 0)
+		}
 		dnsmsg.ReleaseMsg(m)
 	}
 	for i := 0; i < *mal; i++ {
